@@ -363,7 +363,9 @@ func Decompress(compression string, stored []byte, uncompressedSize uint64, cust
 	case "":
 		return stored, nil
 	case "zstd":
-		d, err := zstd.NewReader(nil, zstd.WithDecoderConcurrency(1))
+		// hostile frames may declare any content size: the reference decoder only ever
+		// sees small files, so cap what it may allocate
+		d, err := zstd.NewReader(nil, zstd.WithDecoderConcurrency(1), zstd.WithDecoderMaxMemory(256<<20))
 		if err != nil {
 			return nil, err
 		}
